@@ -135,6 +135,24 @@ pub fn run(case: &Value, ctx: &Ctx) -> Outcome {
             let r = cli::sfs(ctx, &["view"], Some(&bytes));
             out.check(!r.ok() && !r.panicked() && r.stdout.is_empty() && !r.stderr.trim().is_empty(), || "npy/reject/cli".into(), || json!({"header": header, "code": r.code, "stderr": r.stderr}));
         }
+        "dupkey" => {
+            let header = case["header"].as_str().unwrap();
+            let n = case["data_len"].as_u64().unwrap() as usize;
+            let accept = case["accept"].as_bool().unwrap();
+            let shape = usizes(&case["shape"]);
+            // f8 values 1.0, 2.0, .. (as f4 pairs they are other numbers, but only acceptance and shape are judged)
+            let mut data = Vec::new();
+            for i in 0..(n / 8) { data.extend_from_slice(&((i + 1) as f64).to_le_bytes()); }
+            let bytes = assemble(1, header, &data);
+            out.nontrivial = Some(format!("dupkey/{}/{}", case["key"], case["fits"]));
+            match read(&bytes) {
+                Ok(Ok((s, v))) => out.check(accept && s == shape, || "npy/dupkey/accepted-by-first-value".into(), || json!({"header": header.trim(), "read_shape": s, "values": v.len()})),
+                Ok(Err(e)) => out.check(!accept, || "npy/dupkey/rejected-although-last-value-fits".into(), || json!({"header": header.trim(), "error": e})),
+                Err(p) => out.fail("npy/dupkey/panic", json!({"panic": p})),
+            }
+            let r = cli::sfs(ctx, &["view", "-O", "npy"], Some(&bytes));
+            out.check(!r.panicked() && r.ok() == accept && (accept || r.stdout.is_empty()), || "npy/dupkey/cli".into(), || json!({"header": header.trim(), "code": r.code, "stderr": r.stderr, "accept": accept}));
+        }
         "damage" => {
             let f = &case["file"];
             let version = f["version"].as_u64().unwrap() as u8;
